@@ -66,6 +66,11 @@ class C07(Check):
             return {'mode': 'conn', 'spec': {'pops': pops, 'conns': conns}, 'ops': [],
                     'cfg': {'dt': rng.choice([1e-3, 0.01]), 'steps': rng.randint(8, 30), 'vectorize': rng.random() < 0.8}}
         spec = models.gen_aliased(rng, build=rng.choice(['python', 'python', 'yaml']), readouts=0.4 if rng.random() < 0.35 else 0.0)
+        if spec.get('circuits') and stratum in ('S-update_var', 'S-mixed', 'S-apply-values') and rng.random() < 0.3:
+            # ONE sub-circuit template used under both keys (a YAML model hands out one object): an override addressed to a node
+            # of one instance must not reach the other instance
+            models.make_twin_subcircuits(rng, spec)
+            spec['build'] = 'yaml'
         if rng.random() < (0.7 if stratum == 'S-edges' else 0.35):
             models.add_edge_templates(rng, spec, p=0.6)
         flat_nodes, flat_edges = models.flatten(spec)
